@@ -319,6 +319,32 @@ fn judge_time(rec: &mut Rec, n: u64, o: i32) {
             }
         }
     }
+    // relations of TWO times (==, cmp, every *_since, duration_between — both directions) read the same before and
+    // after offsets are attached: the same offset on both, different offsets, an offset on one side only
+    {
+        let m = (n.wrapping_mul(2_654_435_761).wrapping_add(86_399_999_999_999)) % DN;
+        let m = if (n ^ o as u64) % 3 == 0 { (n + (o.unsigned_abs() as u64 % 7_200) * NS as u64 + 1) % DN } else { m };
+        let o2 = ((o as i64 * 7 + 12_345).rem_euclid(172_799) - 86_399) as i32;
+        if let Some((other, _)) = sane_time(m, 0) {
+            rec.api("Time relations under set_offset (pairs)");
+            let rel = |x: &Time, y: &Time| format!("eq={} cmp={:?} ns={} us={} ms={} s={} min={} h={} between={:?}/{:?}", x == y, x.cmp(y), x.nanos_since(y), x.micros_since(y), x.millis_since(y), x.seconds_since(y), x.minutes_since(y), x.hours_since(y), x.duration_between(y), y.duration_between(x));
+            match trap(|| rel(&base, &other)) {
+                Err(_) => rec.bin(SKIP_START),
+                Ok(plain) => {
+                    for (oa, ob, kind) in [(o, o, "same-offset"), (o, o2, "different-offsets"), (o, 0, "one-side-only"), (0, o, "other-side-only")] {
+                        match trap(|| rel(&base.set_offset(Offset::Fixed(oa)), &other.set_offset(Offset::Fixed(ob)))) {
+                            Err(p) => rec.violation(format!("C10|time-pair|relations-under-set_offset|panic|{},{}", p.class, p.site()), || wit(json!({"other_as_nanos": m, "offsets": [oa, ob], "panic": p.to_json()}))),
+                            Ok(with) => {
+                                if with != plain {
+                                    rec.violation(format!("C10|time-pair|relations-changed-by-set_offset|{}", kind), || wit(json!({"other_as_nanos": m, "offsets": [oa, ob], "without_offsets": plain, "with_offsets": with})));
+                                }
+                            }
+                        }
+                    }
+                }
+            }
+        }
+    }
     if rec.want_sample() {
         rec.sample(|| wit(json!("(see verdict)")));
     }
@@ -471,7 +497,7 @@ pub fn run(ctx: &Ctx) -> PropResult {
     let mut meta = PropMeta::default();
     meta.exhaustive = true;
     meta.rule = format!(
-        "Fields in random company: the value carrying the offset and the independently built offset-free value of instant+offset are formatted with the same pattern of 1–7 distinct symbols (any widths, any order, several separators, each symbol also alone) and must print the same; format_rfc3339 at all five precisions must print the date-time of instant+offset (seconds of the offset included) and the zone designator that XXX prints (years 0001–9999). ALL 172 799 offsets x {} stratified instants (era boundary, leap day, year end, range ends ∓1 day, month ends, end-of-day times) + random (instant, offset) pairs incl. the offsets that carry the local date across midnight; per case: set_offset keeps instant/timestamp/==/cmp/*_since/duration, get_offset, all 11 getters and format(\"{}\") equal the model fields of instant+offset, as_offset keeps the displayed fields and moves the instant by −offset. Time: all offsets x {} times (wrap-around both ways). Time additionally at stored times whose local reading is exactly midnight ± 1 ns for each offset; random API walks with judged set_offset/as_offset steps. Offset::from_seconds over every integer in −86 420..=86 420 + extremes; from_hms grids; resolve/resolve_hms return what was given. Non-trivial = the local date differs from the UTC date or the offset has seconds (DateTime); every Time/constructor case. Distinct by input hash. (exhaustive over the offset domain, sampled over instants) as_offset is also applied to receivers that already carry an offset (the same one and a different one): the instant must move by minus the new offset whatever the receiver carried. to_string() is compared with the shifted value's as well; relations of TWO instants (==, cmp, all *_since, duration_between, timestamps) read the same before and after attaching different offsets, half of the pairs closer together than the offsets differ.",
+        "Fields in random company: the value carrying the offset and the independently built offset-free value of instant+offset are formatted with the same pattern of 1–7 distinct symbols (any widths, any order, several separators, each symbol also alone) and must print the same; format_rfc3339 at all five precisions must print the date-time of instant+offset (seconds of the offset included) and the zone designator that XXX prints (years 0001–9999). ALL 172 799 offsets x {} stratified instants (era boundary, leap day, year end, range ends ∓1 day, month ends, end-of-day times) + random (instant, offset) pairs incl. the offsets that carry the local date across midnight; per case: set_offset keeps instant/timestamp/==/cmp/*_since/duration, get_offset, all 11 getters and format(\"{}\") equal the model fields of instant+offset, as_offset keeps the displayed fields and moves the instant by −offset. Time: all offsets x {} times (wrap-around both ways). Time additionally at stored times whose local reading is exactly midnight ± 1 ns for each offset; random API walks with judged set_offset/as_offset steps. Offset::from_seconds over every integer in −86 420..=86 420 + extremes; from_hms grids; resolve/resolve_hms return what was given. Non-trivial = the local date differs from the UTC date or the offset has seconds (DateTime); every Time/constructor case. Distinct by input hash. (exhaustive over the offset domain, sampled over instants) as_offset is also applied to receivers that already carry an offset (the same one and a different one): the instant must move by minus the new offset whatever the receiver carried. to_string() is compared with the shifted value's as well; relations of TWO instants (==, cmp, all *_since, duration_between, timestamps) read the same before and after attaching different offsets, half of the pairs closer together than the offsets differ. Time pairs: ==, cmp, the six *_since and duration_between (both directions) of two times read the same with the same offset on both, different offsets, or an offset on one side only.",
         per, PATTERN, tper
     );
     meta.rule.push_str(" The property's trait methods are also called through the trait (generic code / UFCS) and must agree with method syntax on the same operands (a type may grow inherent twins of its trait methods).");
